@@ -8,7 +8,7 @@ from av.props import simprop
 MANIFEST_ENTRY = {
     "category": "exploration",
     "technique": "paired-run history checker: the same generated model is run with and without an intervention dated Y and every output array is compared on the indices with t < Y (bit-exact), plus stop-year and end-year-extension pairs; an intervention that cannot be applied is a violation",
-    "text": "Pairs: program start year Y vs a start beyond the end; spending / capacity / coverage series that state the value in force before Y and change at Y vs the series without the change; parameter scenarios whose first point is Y (linear and stepped; on data parameters, function parameters, transfers and interactions) vs no scenario; programs with a stop year vs no programs for data-driven targeted parameters after the stop; end year E vs a later end year (to 1e-12). Y is drawn on the grid, off the grid, at the first and last grid point and before the start. All compartments, flows, parameters, characteristics (and per-bin contents) are compared. A pair counts as non-trivial only if the intervention changes some output after Y. Intervention years include a class after the last simulated time (nothing may change, and applying the intervention must not fail). The end-year extension class includes runs with a parameter scenario whose later point lies after the shorter end year. Half of the scenario pairs carry, in both runs, an overwrite of the same quantity for another population (pair) from an earlier year. 40% of the overwrite series begin after the program start (the first value is in force until then); extension cases contain a parameter that switches exactly at grid times.",
+    "text": "Pairs: program start year Y vs a start beyond the end; spending / capacity / coverage series that state the value in force before Y and change at Y vs the series without the change; parameter scenarios whose first point is Y (linear and stepped; on data parameters, function parameters, transfers and interactions) vs no scenario; programs with a stop year vs no programs for data-driven targeted parameters after the stop; end year E vs a later end year (to 1e-12). Y is drawn on the grid, off the grid, at the first and last grid point and before the start. All compartments, flows, parameters, characteristics (and per-bin contents) are compared. A pair counts as non-trivial only if the intervention changes some output after Y. Intervention years include a class after the last simulated time (nothing may change, and applying the intervention must not fail). The end-year extension class includes runs with a parameter scenario whose later point lies after the shorter end year. Half of the scenario pairs carry, in both runs, an overwrite of the same quantity for another population (pair) from an earlier year. 40% of the overwrite series begin after the program start (the first value is in force until then); extension cases contain a parameter that switches exactly at grid times. A third of the scenario pairs run on a parameter set with stepped or pchip fallback interpolation.",
     "note": "Both runs of a pair have the same model structure (same framework, program set present in both), so bit equality is demanded; the end-year extension is compared to 1e-12 because grid values may differ in the last bit.",
 }
 
